@@ -255,6 +255,9 @@ def prepare(line_events=True):
     if I.REPO not in sys.path:
         sys.path.insert(0, I.REPO)
     logging.disable(logging.CRITICAL)
+    import warnings
+
+    warnings.filterwarnings("ignore")   # pydicom warns about invalid UIDs etc. in hostile input; not an observable
     import pynetdicom  # noqa: F401
 
     I.install()
